@@ -9,7 +9,8 @@ import NibabelModel.Generated.C17Codes
                     original defect: orig_remove_skips_adjacent, removeByIntentOrig_counterexample,
                     orig_loop_characterisation, orig_correct_iff_no_adjacent
       parser      : chunking_independent, rechunk_text_node
-      data block  : elem_roundtrip, buffer_roundtrip, order_roundtrip, data_block_roundtrip, codes_pinned
+      data block  : elem_roundtrip, buffer_roundtrip, order_roundtrip, data_block_roundtrip, codes_pinned,
+                    data_block_roundtrip_gifti (instantiated for the regenerated tables)
 
     PARTIAL (external, enter as hypotheses/parameters, checked only by the oracle on the real code):
       expat / ElementTree (escaping, which handler calls are made), base64, zlib, ASCII number printing/parsing. -/
@@ -293,6 +294,26 @@ theorem codes_pinned :
     lookup Gen.codes.order "RowMajorOrder".toList = some Gen.codes.ordRow ∧
     lookup Gen.codes.order "ColumnMajorOrder".toList = some Gen.codes.ordCol := by
   refine ⟨⟨?_, ?_, ?_, ?_, ?_, ?_, ?_⟩, ?_, ?_, ?_, ?_, ?_, ?_, ?_, ?_, ?_⟩ <;> decide
+
+/-- `data_block_roundtrip` instantiated for the REGENERATED code tables and the three data types the GIFTI
+    standard allows (uint8, int32, float32): every hypothesis about the tables is discharged by computation
+    on `Gen.codes`, so a change of a code or an item size in the source re-checks (or breaks) this theorem. -/
+theorem data_block_roundtrip_gifti (X : Ext) (b64enc : List Nat → Text) (deflate : List Nat → List Nat)
+    (hX : CodecContract X b64enc deflate) (gz big col : Bool) (dt w : Nat) (kind : Char)
+    (hdt : (dt, w, kind) ∈ [(2, 1, 'u'), (8, 4, 'i'), (16, 4, 'f')])
+    (shape elems : List Nat) (hlen : elems.length = prod shape) (hr : ∀ v ∈ elems, v < 256 ^ w) :
+    readDataBlock Gen.codes X
+      ⟨if gz then Gen.codes.encGz else Gen.codes.encB64, if big then Gen.codes.endBig else Gen.codes.endLittle,
+       dt, shape, if col then Gen.codes.ordCol else Gen.codes.ordRow⟩
+      (some (writeDataBlock b64enc deflate gz big w col shape elems)) = .ok ⟨dt, shape, elems⟩ := by
+  simp only [List.mem_cons, Prod.mk.injEq, List.not_mem_nil, or_false] at hdt
+  rcases hdt with ⟨rfl, rfl, rfl⟩ | ⟨rfl, rfl, rfl⟩ | ⟨rfl, rfl, rfl⟩
+  · exact data_block_roundtrip Gen.codes codes_pinned.1 X b64enc deflate hX gz big col 2 1 'u' (by decide) (by decide)
+      shape elems hlen hr
+  · exact data_block_roundtrip Gen.codes codes_pinned.1 X b64enc deflate hX gz big col 8 4 'i' (by decide) (by decide)
+      shape elems hlen hr
+  · exact data_block_roundtrip Gen.codes codes_pinned.1 X b64enc deflate hX gz big col 16 4 'f' (by decide) (by decide)
+      shape elems hlen hr
 
 /-- non-vacuity of `data_block_roundtrip`: the regenerated tables, a concrete codec pair satisfying the contract
     (bytes ↔ characters, identity "compression"), a 2×3 int32 array with extreme bit patterns, column-major,
